@@ -57,7 +57,27 @@ def main(argv):
     pid = args[0]
     rc = run_property(pid, tier)
     if rc == 0 and tier == "thorough":
-        from . import selftest
+        from . import selftest, sweeps
+        from .report import EVID
+        # package-wide sweeps: observations only (never a violation)
+        try:
+            obs = sweeps.run_for(pid, Program(REPO))
+        except Exception as e:
+            print("ANALYSIS-ERROR property=%s sweep failed: %s" % (pid, e))
+            return 2
+        if obs:
+            path = os.path.join(EVID, "%s.json" % pid)
+            with open(path) as fh:
+                ev = json.load(fh)
+            ev["coverage"]["observations"] = obs
+            with open(path, "w") as fh:
+                json.dump(ev, fh, indent=1, default=str)
+            for k, v in obs.items():
+                cnt = v.get("missing_count", v.get("count"))
+                if cnt is None:
+                    lists = [x for x in v.values() if isinstance(x, list)]
+                    cnt = len(lists[0]) if lists else 0
+                print("sweep %s: %s" % (k, cnt))
         rc2 = selftest.run_for(pid, attach_evidence=True)
         if rc2 != 0:
             return rc2
